@@ -230,6 +230,16 @@ def locate_loops(unit, gb, workdir):
             if anchor in text:
                 cands.append((lp, ln))
         cands.sort(key=lambda c: c[1])
+        if not cands and "fallback_ordinal" in ent:
+            # The anchor text is gone (the loop header was rewritten). If the function still has
+            # as many loops as when the contract was written, bind the contract to the loop at
+            # the same position; verify_unit then counts only tagged obligations of this unit
+            # as violations - a failing invariant of a rewritten loop is "undecided" (exit 2).
+            fl = sorted(((lp, int(lp.get("sourceLocation", {}).get("line", "0"))) for lp in loops
+                         if lp.get("sourceLocation", {}).get("function") == fn), key=lambda c: c[1])
+            if len(fl) == ent.get("function_loops") and ent["fallback_ordinal"] < len(fl):
+                cands = [fl[ent["fallback_ordinal"]]]
+                out.setdefault("fallback_bound", []).append(fn)
         if "anchor_index" in ent:
             want = ent.get("anchor_count")
             if ent["anchor_index"] >= len(cands) or (want is not None and want != len(cands)):
@@ -268,7 +278,10 @@ def locate_loops(unit, gb, workdir):
         out["functions"].append({fn: [{"loop_id": k, **v} for k, v in d.items()]})
     # CBMC's format: {"functions":[{"fn":[{"loop_id":"0","invariants":"..","symbol_map":".."}]}]}
     p = os.path.join(workdir, "loops.json")
+    fb = out.pop("fallback_bound", None)
     json.dump(out, open(p, "w"), indent=1)
+    if fb:
+        out = dict(out, fallback_bound=fb)
     return p, out
 
 
@@ -278,7 +291,8 @@ def expand_pred(unit, text, workdir):
     if not os.path.exists(spec):
         return text
     src = '#include "%s"\n@@PRED %s\n' % (spec, text)
-    r = subprocess.run(["gcc", "-E", "-P", "-DVERIF_CBMC", "-DVERIF_LOOPJSON", "-x", "c", "-"] + inc_flags(),
+    r = subprocess.run(["gcc", "-E", "-P", "-DVERIF_CBMC", "-DVERIF_LOOPJSON"] + ["-D" + d for d in unit["defines"]] +
+                       ["-x", "c", "-"] + inc_flags(),
                        input=src, capture_output=True, text=True)
     if r.returncode != 0:
         raise Tooling("predicate expansion failed: " + r.stderr[-1000:])
@@ -597,6 +611,13 @@ def verify_unit(unit, use_cache=True):
         if "ignoring" in msgs and "forall" in msgs:
             raise Tooling("quantifier ignored by back end")
         obs = classify(unit, results, ctags)
+        if (info.get("loop_contracts") or {}).get("fallback_bound"):
+            res["loop_fallback_bound"] = info["loop_contracts"]["fallback_bound"]
+            for o in obs:
+                if o["kind"] == "safety" and o["status"] != "SUCCESS" and \
+                        re.search(r"loop_invariant|loop_assigns|loop_decreases|loop_step|\.assigns\.", o["id"]):
+                    o["kind"] = "excluded"  # contract of a rewritten loop: undecided, not a violation
+                    o["desc"] += " [loop header rewritten: contract bound by position, this obligation is not counted]"
         res["obligations"] = obs
         if not obs:
             raise Tooling("zero obligations generated")
